@@ -189,6 +189,9 @@ func newJSONServer() *jsonServer {
 	js := &jsonServer{list: map[string][]byte{}, one: map[string][]byte{}, live: map[string]*seqSource{}}
 	js.srv = httptest.NewServer(http.HandlerFunc(func(w http.ResponseWriter, r *http.Request) {
 		key := r.Header.Get("X-Verif-Key")
+		if k := r.URL.Query().Get("key"); k != "" {
+			key = k
+		}
 		js.mu.Lock()
 		l, one := js.list[key], js.one[key]
 		lv := js.live[key]
@@ -997,6 +1000,101 @@ func runList(lc ListCase) (obs []Obs, served []*model.ProviderInfo, fails []list
 }
 
 // ---------------------------------------------------------------------------
+// the real find client (find/client DHashClient) over an in-memory dhstore and a provider
+// cache fed from a /providers endpoint: one Find whose answer has several value keys, some
+// of the SAME provider under different context IDs / metadata; every returned result is
+// compared with the expansion of that provider's served record for THAT value key's
+// context ID and metadata; afterwards the cached records must be as served
+
+type FindCase struct {
+	Shapes []int    `json:"shapes"` // shape of provider i's record (listRecord)
+	Keys   [][3]int `json:"keys"`   // value keys in dhstore order: provider, context ID number, metadata number
+}
+
+var findMds = [][]byte{{0x07, 0x01}, {0x09, 0x09}, {0x0b}}
+
+type findFail struct{ sig, msg string }
+
+func runFind(fc FindCase) (per [][]Item, want [][]Item, served []*model.ProviderInfo, fails []findFail) {
+	for i, sh := range fc.Shapes {
+		pi := listRecord(i, sh, i)
+		// an address listed twice, as providers occasionally advertise
+		pi.AddrInfo.Addrs = append(append(pcdrv.Addr(pcdrv.AddrTag(pi.AddrInfo.Addrs)), pi.AddrInfo.Addrs...), pcdrv.Addr(900+i)...)
+		served = append(served, pi)
+	}
+	body, _ := json.Marshal(served)
+	keyMu.Lock()
+	keyCounter++
+	key := fmt.Sprint("f", keyCounter)
+	keyMu.Unlock()
+	theServer.mu.Lock()
+	theServer.list[key] = body
+	theServer.mu.Unlock()
+	defer func() {
+		theServer.mu.Lock()
+		delete(theServer.list, key)
+		theServer.mu.Unlock()
+	}()
+	dh := pcdrv.NewMemDH()
+	mh := pcdrv.TestMultihash(1)
+	for _, k := range fc.Keys {
+		dh.Put(mh, pcdrv.Peer(k[0]), ctxName(k[1]), findMds[k[2]])
+	}
+	// the client builds its own provider cache from the URL: the key travels in the path
+	cl := pcdrv.NewFindClient(dh, theServer.srv.URL+"/?key="+key)
+	sig := fmt.Sprintf("shapes=%v:keys=%v", fc.Shapes, fc.Keys)
+	for round := 0; round < 2; round++ {
+		resp, err := cl.Find(context.Background(), mh)
+		if err != nil {
+			fails = append(fails, findFail{"find:error:" + sig, "Find failed: " + err.Error()})
+			return
+		}
+		var got []model.ProviderResult
+		for _, mr := range resp.MultihashResults {
+			got = append(got, mr.ProviderResults...)
+		}
+		pos := 0
+		per, want = nil, nil
+		for ki, k := range fc.Keys {
+			w := specResults(served[k[0]], pcdrv.Peer(k[0]), ctxName(k[1]), findMds[k[2]])
+			end := pos + len(w)
+			if end > len(got) {
+				end = len(got)
+			}
+			o := observe(got[pos:end], nil)
+			pos = end
+			per, want = append(per, o.Items), append(want, w)
+			if !itemsEqual(w, o.Items) {
+				wj, _ := json.Marshal(w)
+				gj, _ := json.Marshal(o.Items)
+				fails = append(fails, findFail{fmt.Sprintf("find:result-not-the-expansion-for-its-value-key:%s:key#%d:round%d", sig, ki, round),
+					fmt.Sprintf("Find (round %d) over value keys %v (provider, context, metadata): the results for value key #%d (provider %d, context c%d, metadata %x) are %s; the expansion of that provider's record for THAT context ID and metadata is %s", round, fc.Keys, ki, k[0], k[1], findMds[k[2]], gj, wj)})
+			}
+		}
+		if pos != len(got) {
+			fails = append(fails, findFail{"find:extra-results:" + sig, fmt.Sprintf("Find returned %d results, the value keys expand to %d", len(got), pos)})
+		}
+		// consumers of the results must not have changed the cached records
+		for i := range served {
+			pi, _ := cl.PCache().Get(context.Background(), pcdrv.Peer(i))
+			if pi == nil {
+				continue
+			}
+			a, _ := json.Marshal(pi)
+			b, _ := json.Marshal(served[i])
+			var c1 model.ProviderInfo
+			json.Unmarshal(b, &c1)
+			b, _ = json.Marshal(&c1)
+			if string(a) != string(b) {
+				fails = append(fails, findFail{fmt.Sprintf("find:cached-record-changed-by-find:%s:provider#%d", sig, i),
+					fmt.Sprintf("after Find number %d the record cached for provider #%d is %s; the server served %s (a consumer of the results wrote into the cached record)", round+1, i, a, b)})
+			}
+		}
+	}
+	return
+}
+
+// ---------------------------------------------------------------------------
 
 type failRec struct {
 	idx   int
@@ -1036,6 +1134,23 @@ func main() {
 	}
 
 	if c.Replay != "" {
+		var fr struct {
+			Find *FindCase `json:"find"`
+		}
+		if err := c.LoadReplay(&fr); err == nil && fr.Find != nil {
+			per, _, _, fails := runFind(*fr.Find)
+			fmt.Printf("replay: Find over shapes %v, value keys %v\n", fr.Find.Shapes, fr.Find.Keys)
+			for ki, it := range per {
+				b, _ := json.Marshal(it)
+				fmt.Printf("  value key #%d: %s\n", ki, b)
+			}
+			c.Eval()
+			for _, f := range fails {
+				fmt.Println("ORACLE-FAIL:", f.msg)
+				c.Fail(f.sig, f.msg, map[string]interface{}{"find": fr.Find})
+			}
+			return
+		}
 		var lr struct {
 			List *ListCase `json:"list"`
 		}
@@ -1475,6 +1590,34 @@ func main() {
 			if listKinds[kind] < 1 {
 				listKinds[kind]++
 				c.Fail(f.sig, f.msg, map[string]interface{}{"list": lc})
+			}
+		}
+	}
+
+	// ---- stream 9: the real find client over these records
+	findKinds := map[string]int{}
+	for a := 0; a < 6; a++ {
+		for b := 0; b < 6; b += 1 {
+			fc := FindCase{Shapes: []int{a, b}, Keys: [][3]int{{0, 1, 0}, {0, 2, 1}, {1, 1, 0}, {0, 3, 2}, {1, 2, 1}}}
+			per, want, served, fails := runFind(fc)
+			for ki := range per {
+				c.Eval()
+				c.Count("find-value-keys")
+				k := fc.Keys[ki]
+				o := Obs{Kind: "ok", Items: per[ki]}
+				_ = want
+				if representable(o, served[k[0]]) {
+					c.Case("getresults", fmt.Sprintf("GRC %s %d %s %s %s", coqRecord(served[k[0]]), k[0], coqBytes(ctxName(k[1])), coqMd(findMds[k[2]]), coqObs(o)),
+						map[string]interface{}{"find": fc, "key": ki})
+				}
+			}
+			for _, f := range fails {
+				c.Count("find-failures")
+				kind := strings.SplitN(f.sig, ":", 3)[1]
+				if findKinds[kind] < 1 {
+					findKinds[kind]++
+					c.Fail(f.sig, f.msg, map[string]interface{}{"find": fc})
+				}
 			}
 		}
 	}
